@@ -221,6 +221,23 @@ fn run_corpus(job: &Value) {
         xs.extend(["1.2.3", "1..2", ".5.5", "1.", ".", "2pi", "1e5", "2i3", "i2", "π²", "3!!", "-2^2", "2^3!", "6/2(3)", "1 + 2\u{2003}* 3", "⌊2.5⌋⌈2.5⌉", "1<<63", "1<<64", "5%0", "1/0", "avg()", "min()", "max(1,2,)", "sgn(0)", "w(1)", "ilog(100,2)", "gcd(12,18)", "@@", "(@)", "@(2)"].iter().map(|s| s.to_string()));
         for x in xs { let _ = writeln!(w, "{}\t{}", e, x); n += 1; }
     }
+    // every use of a precedence level (the levels are cfg-dependent enum ordinals): implicit products with every kind of left and
+    // right factor, every suffix after the right factor, every operator to the left
+    for e in ["f64", "i64", "dec", "cpx", "num"] {
+        let lefts: Vec<&str> = if v.has_kind(e, "lf") { vec!["2", "(2)", "abs(2)", "3!", "⌊2.5⌋", "⌈1.5⌉"] } else if v.has_kind(e, "bang") { vec!["2", "(2)", "abs(2)", "3!"] } else { vec!["2", "(2)", "abs(2)"] };
+        let rights: Vec<&str> = if v.has_kind(e, "lf") { vec!["(3)", "abs(3)", "⌊3.5⌋", "3"] } else { vec!["(3)", "abs(3)", "3"] };
+        let mut suffixes: Vec<&str> = vec!["", "^2", "²", "*5", "+1", "^2^3", "(4)"];
+        if v.has_kind(e, "bang") { suffixes.extend(["!", "^2!", "!²"]); }
+        if v.has_kind(e, "deg") { suffixes.extend(["°", "rad"]); }
+        if v.has_kind(e, "mod") { suffixes.push("%2"); }
+        if v.has_kind(e, "shl") { suffixes.extend(["<<1", "&6", "|1"]); }
+        for l in &lefts { for r in &rights {
+            if *r == "3" && (*l == "2") { continue; }                 // two adjacent literals would merge
+            for sfx in &suffixes { for pre in ["", "-", "6/", "2^", "1+", "2*"] {
+                let _ = writeln!(w, "{}\t{}{}{}{}", e, pre, l, r, sfx); n += 1;
+            } }
+        } }
+    }
     // every function, alias and postfix operator of every evaluator on signed arguments (a feature subset may select another
     // implementation of a helper: each must behave as in the all-features build)
     let args_all = ["-1", "-2", "-2.5", "-0.5", "0", "0.5", "1", "2.5", "3", "10", "-7", "100", "0.1", "25", "-1.5", "1000000", "-3", "4.5", "-0.25", "171"];
